@@ -16,9 +16,9 @@ import (
 // Case is one generated input together with what the implementation did on it.
 type Case struct {
 	Kind       string   `json:"kind"`
-	Desc       any      `json:"desc"`            // human-readable inputs and observations
-	Coq        string   `json:"-"`               // term of type Check.Cxx.case ("" = Go-side only)
-	Fail       []string `json:"fail,omitempty"`  // direct-oracle failures found on the Go side
+	Desc       any      `json:"desc"`           // human-readable inputs and observations
+	Coq        string   `json:"-"`              // term of type Check.Cxx.case ("" = Go-side only)
+	Fail       []string `json:"fail,omitempty"` // direct-oracle failures found on the Go side
 	Nontrivial bool     `json:"nontrivial"`
 	Key        string   `json:"-"` // identity for distinct counting (default: Coq term)
 }
@@ -119,7 +119,7 @@ func main() {
 			hi = len(coqIdx)
 		}
 		var sb strings.Builder
-		fmt.Fprintf(&sb, "From Coq Require Import List String Ascii ZArith NArith Bool.\nFrom YT Require Import Base.Str Model.Doc Check.%s.\nImport ListNotations.\nLocal Open Scope list_scope.\nLocal Open Scope string_scope.\n", p.ID)
+		fmt.Fprintf(&sb, "From Coq Require Import List String Ascii ZArith NArith Bool.\nFrom YT Require Import Base.Str Model.Doc Check.Common Check.%s.\nImport ListNotations.\nLocal Open Scope list_scope.\nLocal Open Scope string_scope.\n", p.ID)
 		fmt.Fprintf(&sb, "Definition cases : list Check.%s.case := [\n", p.ID)
 		for j := lo; j < hi; j++ {
 			if j > lo {
